@@ -19,7 +19,7 @@ def check_trace(rows, rec, tol_alg=1e-9, tol_nr=1e-6, image_interacts=False):
     """rows: reference prescription rows (at the ray wavelength); rec: dict of arrays x,y,z,L,M,N,opd with
     shape (nsurf, nrays). Returns (violations, stats); violation = dict(clause, k, ray, err, observed, expected)."""
     out = []
-    stats = dict(judged=0, finite=0, failed_expected=0, undecided=0)
+    stats = dict(judged=0, finite=0, failed_expected=0, undecided=0, tir_expected=0)
     X, Y, Z, L, M, N = (np.asarray(rec[k], dtype=float) for k in 'xyzLMN')
     OPD = np.asarray(rec['opd'], dtype=float)
     ns, nr = X.shape
@@ -64,6 +64,7 @@ def check_trace(rows, rec, tol_alg=1e-9, tol_nr=1e-6, image_interacts=False):
         fin_k = fin[k][idx_prev]
         stats['finite'] += int(np.sum(fin_k))
         stats['failed_expected'] += int(np.sum(none))
+        stats['tir_expected'] += int(np.sum(ok_hit & ~ok_dir))
         # reference says the ray exists but the record is non-finite
         bad = exists & ~fin_k
         if np.any(bad):
